@@ -6,7 +6,7 @@
  * complete link structure (forward walk from head, backward walk from tail, every node being the map's node for its
  * key) equal the reference list. The reached state is therefore again a member of the pre-state family (for the
  * expected list), so by induction over the history length every history over NKEYS keys behaves like the reference;
- * the base case (fresh instances) is the M0 = M1 = 0 cell together with h_set.c. Instances are destroyed populated. */
+ * the base case (fresh instances) is the M0 = M1 = 0 cell together with h_map.c. Instances are destroyed populated. */
 #include "lru_ref.h"
 #define STEP_WALK 6
 #define STEP_NOUT (5 + 4 * STEP_WALK)
